@@ -96,9 +96,14 @@ struct Api {
 };
 
 struct CppApi : Api {
+    std::vector<u8> user_buf; // UserConfig::dsp_memory when the instance runs on memory supplied by the host
     std::unique_ptr<Teakra::Teakra> t;
-    CppApi() {
+    explicit CppApi(bool user_memory = false) {
         Teakra::UserConfig cfg;
+        if (user_memory) {
+            user_buf.assign(0x80000, 0);
+            cfg.dsp_memory = user_buf.data();
+        }
         t = std::make_unique<Teakra::Teakra>(cfg);
         Teakra::AHBMCallback cb;
         cb.read8 = [this](u32 a) { return ext.r8(a); };
@@ -208,7 +213,7 @@ struct Op {
 const char* kOpNames[] = {"load-program", "run", "mmio-write", "senddata", "recvdata", "setsem", "clearsem", "masksem", "dma",
                           "ahbm-read16", "ahbm-write32", "datawrite", "snippet", "timer", "fifo", "trigger", "apbp-disable",
                           "ahbm-config", "mmio-read", "a32-write", "a32-read", "program-read", "data-nobypass", "zpage", "dma-high-query",
-                          "ahbm-get", "mmiobase"};
+                          "ahbm-get", "mmiobase", "poke-vectored-request"};
 
 const u16 kWritable[] = {0x020, 0x022, 0x024, 0x026, 0x028, 0x02A, 0x02C, 0x02E, 0x030, 0x032, 0x034, 0x036, 0x038, 0x03A, 0x03C, 0x03E,
                          0x0C0, 0x0C4, 0x0C8, 0x0CC, 0x0CE, 0x0D0, 0x0D4, 0x0E2, 0x0E4, 0x0E6, 0x0E8, 0x0EA, 0x0EC, 0x0EE, 0x0F0, 0x0F2,
@@ -331,11 +336,14 @@ Op make_op(Rng& g, bool dirty_bias) {
     } else if (s < 94) {
         o.kind = 16;
         o.a = (u16)(g.bits(16) & 0x3104);
-    } else if (s < 97) {
+    } else if (s < 95) {
         o.kind = 17;
         o.a = (u32)g.below(3);
         o.b = (u32)g.below(3);
         o.c = (u32)g.below(3);
+    } else if (s < 97) { // what a save-state loader does: request/mask/enable bits written straight into the register file
+        o.kind = 27;
+        o.a = (u32)g.range(1, 12);
     } else {
         o.kind = 18;
         o.a = (u16)(g.below(0x400) * 2);
@@ -440,6 +448,14 @@ void apply(Api& t, const Op& o) {
         break;
     case 25: t.log.push_back(fmt("ahbmget%u[%u]=%04x", o.a, o.b, t.AHBMGet((int)o.a, (u16)o.b))); break;
     case 26: t.MMIOWrite(0x11E, (u16)o.a); break;
+    case 27:
+        if (auto* r = t.Regs()) {
+            r->ipv = 1;
+            r->imv = 1;
+            r->ie = 1;
+            t.Run(o.a);
+        }
+        break;
     }
 }
 
@@ -616,8 +632,10 @@ int main(int argc, char** argv) {
         } else if (mode == "reset") {
             // ---------------- A: H1, Reset, H2     B: fresh, Reset, H2
             fills = {0, 0};
-            inst.push_back(std::make_unique<CppApi>());
-            inst.push_back(std::make_unique<CppApi>());
+            const bool user_memory = g.chance(1, 3); // both instances on host-supplied memory (UserConfig::dsp_memory)
+            inst.push_back(std::make_unique<CppApi>(user_memory));
+            inst.push_back(std::make_unique<CppApi>(user_memory));
+            ctx.count(user_memory ? "reset_histories_on_user_memory" : "reset_histories_on_owned_memory");
             inst[0]->Reset();
             unsigned n1 = (unsigned)g.range(4, 25);
             std::string h1;
@@ -657,7 +675,7 @@ int main(int argc, char** argv) {
             unsigned n = g_host_bias ? (unsigned)g.range(10, 60) : (unsigned)g.range(3, 16);
             for (unsigned k = 0; k < n && !bad; ++k) {
                 Op o = make_op(g, false);
-                if (o.kind == 12)
+                if (o.kind == 12 || o.kind == 27)
                     continue; // needs the register accessor
                 if (o.kind == 0) { // both restart through Reset so that the C binding (no register accessor) can follow
                     inst[0]->Reset();
